@@ -279,6 +279,7 @@ func walk(b []byte) (int, int, bool) {
 			return clsShort, p
 		}
 		mt, ai := b[p]>>5, b[p]&31
+		p0 := p
 		p++
 		if ai == 31 {
 			switch mt {
@@ -338,13 +339,14 @@ func walk(b []byte) (int, int, bool) {
 			}
 			return clsOk, p + int(n)
 		case 4, 5:
-			if n > uint64(len(b)) {
-				huge = true
-			}
 			// count items without multiplying a wire value: 2 per map entry
 			per := 1
 			if mt == 5 {
 				per = 2
+			}
+			// vh.ParseItem compares the element count with the bytes left from the item's first byte
+			if left := uint64(len(b) - p0); n > 1<<62 || n*uint64(per) > left {
+				huge = true
 			}
 			for j := uint64(0); j < n; j++ {
 				for k := 0; k < per; k++ {
